@@ -26,6 +26,9 @@ def cdb(p):
     return sint(1000.0 * math.log10(max(p, 1e-300)))
 
 
+_CALL = [0]
+
+
 def run(run):
     rng = random.Random(run.seed)
     quick = run.tier == "quick"
@@ -123,7 +126,28 @@ def run(run):
             if fam != "gaussian":
                 cfg["signal"] = fam
             try:
-                y = mk()(x)
+                # the call in turn: plain, under no_grad, on a dense transposed view, on an autograd-tracked signal, on the eval-mode / deep-copied object
+                _CALL[0] += 1
+                w = _CALL[0] % 6
+                chan = mk()
+                if w == 1:
+                    with torch.no_grad():
+                        y = chan(x)
+                    cfg["route"] = "no_grad"
+                elif w == 2 and x.dim() >= 2:
+                    from .core import transposed_view
+                    x = transposed_view(x)
+                    y = chan(x)
+                    cfg["route"] = "transposed view"
+                elif w == 3:
+                    y = chan(x.clone().requires_grad_(True)).detach()
+                    cfg["route"] = "requires_grad"
+                elif w == 4:
+                    import copy
+                    y = copy.deepcopy(chan).eval()(x)
+                    cfg["route"] = "deepcopy + eval"
+                else:
+                    y = chan(x)
             except Exception as ex:
                 run.violate(comp, "channel_raised", cfg, {"error": repr(ex)[:200]})
                 continue
